@@ -1559,7 +1559,6 @@ func hoistedBufferSafe(c *Ctx, read, dec *ssa.Call, site ssa.Instruction) string
 	return reason
 }
 
-
 // fullHigh: the upper bound of the slice expression is absent or the constant length of the sliced array
 // (make([]byte, K) compiles to new [K]byte followed by [:K])
 func fullHigh(x *ssa.Slice) bool {
